@@ -17,7 +17,7 @@ Definition zneg (a : Z) : Z := - a.
 (* Kalman configuration from integers (floats as bit patterns), in the field
    order of KalmanConfiguration *)
 Definition kcfg_bits (thr dz st ms mfo ifu iw dw pl ph hy et db sb pf : Z) : kcfg :=
-  mk_kcfg thr (fb dz) st (fb ms) (fb mfo) (fb ifu) (fb iw) (fb dw) (fb pl) (fb ph) hy et db sb (fb pf).
+  mk_kcfg thr (fb dz) st (fb ms) (fb mfo) (fb ifu) (fb iw) (fb dw) (fb pl) (fb ph) hy et db sb (fb pf) impl_f24_fixed.
 
 Inductive fkind := FKalman (cfg : kcfg) | FBasic (gain : float).
 Inductive event := EMeas (m : meas) | EUpdate | EDemob.
